@@ -34,6 +34,19 @@ UF_POW = z3.Function('uf_pow', F64, F64, F64)
 UF_EXP = z3.Function('uf_exp', F64, F64)
 UF_LOG = z3.Function('uf_log', F64, F64)
 UF_SQRT = z3.Function('uf_sqrt', F64, F64)
+_UFS: dict = {}
+
+
+def _uf1(name: str):
+    if name not in _UFS:
+        _UFS[name] = z3.Function(name, F64, F64)
+    return _UFS[name]
+
+
+def _uf2(name: str):
+    if name not in _UFS:
+        _UFS[name] = z3.Function(name, F64, F64, F64)
+    return _UFS[name]
 UF_I2F = z3.Function('uf_i2f', z3.IntSort(), F64)
 UF_FLOORDIV = z3.Function('uf_floordiv', F64, F64, F64)
 UF_MOD = z3.Function('uf_mod', F64, F64, F64)
@@ -430,6 +443,23 @@ class SFloat:
     def sqrt(self):
         return SFloat(UF_SQRT(self.t))
 
+    # other NumPy functions with a digit in their name (np.log10, np.log1p, np.expm1, np.log2, np.arctan2): uninterpreted
+    def log10(self):
+        return SFloat(_uf1('uf_log10')(self.t))
+
+    def log1p(self):
+        return SFloat(_uf1('uf_log1p')(self.t))
+
+    def expm1(self):
+        return SFloat(_uf1('uf_expm1')(self.t))
+
+    def log2(self):
+        return SFloat(_uf1('uf_log2')(self.t))
+
+    def arctan2(self, o):
+        t = _f(o)
+        return NotImplemented if t is None else SFloat(_uf2('uf_arctan2')(self.t, t))
+
     # comparisons (IEEE) -------------------------------------------------------
     def _cmp(self, o, f):
         t = _f(o)
@@ -619,6 +649,10 @@ def _apply_ufunc(name: str, args: list):
         return _sf(a).log()
     if name == 'sqrt':
         return _sf(a).sqrt()
+    if name in ('log10', 'log1p', 'expm1', 'log2'):
+        return getattr(_sf(a), name)()
+    if name == 'arctan2':
+        return _sf(a).arctan2(b)
     if name in ('absolute', 'fabs'):
         return abs(_sf(a))
     if name == 'negative':
